@@ -157,6 +157,13 @@ CHECKS = {
             "stderr, timeout}; oracle: output/status as a fresh sh -c, values verbatim, each command executed exactly once.",
             "Commands are shell text by design; real-time 1 s timeouts; BaseConnector.run's inherited direct-exec path is not "
             "exercised (no shipped connector uses it).", "3/C25"),
+    "C24": ("exploration", "E3", E3 + "; differential Local vs Remote StreamFlowPath on identically prepared trees",
+            "21 operations x 10 (18) hostile name classes x target states {absent, file, dir, symlink, dangling} x 7 content classes "
+            "x glob patterns x walk directions, each performed through LocalStreamFlowPath and through RemoteStreamFlowPath over a "
+            "shell-based remote location (real persistent shell, real stream writer); oracle: same result or both raise, identical "
+            "resulting trees. A disagreement that also occurs with a plain name is keyed as a semantic difference of the operation.",
+            "The remote location is /bin/sh on this machine; exception classes are not compared; single operations (no sequences).",
+            "3/C24"),
 }
 
 NOT_YET = "check not built yet in this session (planned, see DESIGN.md section 3); no claim is made"
